@@ -409,6 +409,8 @@ def argv_for(opts, starts, dbpath, extra=()):
         argv += ['--max-redirect', str(opts['max_redirect'])]
     if opts.get('sitemaps'):
         argv.append('--sitemaps')
+    if opts.get('page_requisites_level') not in (None, 5):
+        argv += ['--page-requisites-level', str(opts['page_requisites_level'])]
     argv += list(extra)
     return argv
 
@@ -468,6 +470,8 @@ def gen_c01(tape, tier):
     opts['recursive'] = not tape.chance(1, 8, 'opt.norec')
     opts['level'] = tape.choice((5, 1, 2, 3, 'inf'), 'opt.level')
     opts['page_requisites'] = tape.chance(1, 2, 'opt.p')
+    if opts['page_requisites'] and tape.chance(1, 3, 'opt.prl'):
+        opts['page_requisites_level'] = tape.choice((1, 2, 3), 'opt.prl.n')
     opts['no_parent'] = tape.chance(1, 4, 'opt.np')
     rx = tape.draw(6, 'opt.regex')
     if rx == 1:
@@ -566,6 +570,8 @@ def gen_c02(tape, tier):
     opts = {'robots': tape.chance(1, 3, 'opt.robots'), 'recursive': True}
     opts['level'] = tape.choice((5, 1, 2, 'inf'), 'opt.level')
     opts['page_requisites'] = tape.chance(1, 2, 'opt.p')
+    if opts['page_requisites'] and tape.chance(1, 3, 'opt.prl'):
+        opts['page_requisites_level'] = tape.choice((1, 2, 3), 'opt.prl.n')
     opts['no_parent'] = tape.chance(1, 3, 'opt.np')
     k = tape.draw(8, 'opt.regex')
     if k == 1:
